@@ -406,4 +406,24 @@ def c16_outbound(version, routes, ops, timeout, res):
                 bad.append(("invalid-call-written:%s:%s" % (version, action),
                             "a %s request that violates its schema was written although this call did not skip validation "
                             "(routes skipping validation on this endpoint: %r)" % (action, skipping)))
+    # the reply of a call is validated iff THAT call did not skip
+    bad += c05_caller(version, routes, ops, timeout, res)
+    replies = {}
+    for o in ops:
+        if o[0] == "inbound":
+            try:
+                fr = json.loads(o[1])
+            except ValueError:
+                continue
+            if isinstance(fr, list) and len(fr) >= 3 and fr[0] in (3, 4) and not isinstance(fr[0], bool):
+                replies.setdefault(jkey(fr[1]), set()).add(fr[0])
+    for o in ops:
+        if o[0] != "start" or not o[5]:
+            continue
+        _, k, uid, action, snake, skip, suppress, send_ok = o
+        oc = res["outcomes"].get(k) or res["outcomes"].get(str(k))
+        if oc is not None and oc[0] == "ocpp" and replies.get(jkey(ids[k])) == {3}:
+            bad.append(("skipping-call-validated:%s:%s" % (version, action),
+                        "call(%s, skip_schema_validation=True) was answered by a CALLRESULT only, yet ended with %s: its reply "
+                        "was validated although this call skipped validation" % (action, oc[1][0])))
     return bad
